@@ -31,7 +31,8 @@ ASSUMPTIONS = [
     'rtol 1e-9 on every input class',
     'a discrepancy that round-off-level (1e-15) input noise alone '
     'reproduces to 1e-3 is counted as inconclusive, not as a violation',
-    'Psi4_lm is not requested (needs an extraction sphere inside the grid)']
+    'Psi4_lm is requested with center = grid centre, one extraction radius '
+    '0.6 x the smallest half-extent and lmax = 2']
 
 
 warmup = cc.warmup
